@@ -125,6 +125,14 @@ def generate(seed, tier="quick"):
             for ln in lines:
                 t["events"].append({"t": "stmt", "text": ln})
             nested = True
+    thr = sub(seed, "thread")
+    if thr.random() < 0.25:
+        # some comparisons are executed by a worker thread that the test starts and joins: still a snapshot executed inside that test
+        for f in prog["files"]:
+            for t in f["tests"]:
+                for e in t["events"]:
+                    if e.get("t") == "cmp" and not e.get("via") and not e.get("access_only") and thr.random() < 0.5:
+                        e["via"] = "thread"
     lrng = sub(seed, "leave")
     for f in prog["files"]:
         for t in f["tests"]:
